@@ -560,7 +560,7 @@ func skLoopFuncDefs(seq []skNode) []Stmt {
 	return out
 }
 
-var forForms = []string{"three", "noinit", "nopost", "nocond", "semis", "cond", "bare", "down"}
+var forForms = []string{"three", "noinit", "nopost", "nocond", "semis", "cond", "bare", "down", "assigninit", "oppost"}
 var jumps = []string{"", "break-start", "continue-start", "break-end", "continue-end", "break-uncond"}
 
 func forKinds(forms, js []string) []skKind {
@@ -837,8 +837,8 @@ func (b *skBuilder) loop(n skNode, ctrs []string) []Stmt {
 		cond = Binary{Op: ">=", L: Var{c}, R: IntLit{0}}
 		post = IncDec{Name: c, Inc: false}
 	}
-	hasPost := k.form == "three" || k.form == "noinit" || k.form == "nocond" || k.form == "down"
-	hasCond := k.form == "three" || k.form == "noinit" || k.form == "nopost" || k.form == "cond" || k.form == "down"
+	hasPost := k.form == "three" || k.form == "noinit" || k.form == "nocond" || k.form == "down" || k.form == "assigninit" || k.form == "oppost"
+	hasCond := k.form == "three" || k.form == "noinit" || k.form == "nopost" || k.form == "cond" || k.form == "down" || k.form == "assigninit" || k.form == "oppost"
 	step := func() []Stmt { // manual increment for forms without a post statement
 		if hasPost {
 			return nil
@@ -902,6 +902,13 @@ func (b *skBuilder) loop(n skNode, ctrs []string) []Stmt {
 	case "noinit":
 		out = append(out, def)
 		f.Cond, f.Post, f.Three = cond, post, true
+	case "assigninit":
+		// the init clause ASSIGNS a variable declared before the loop (for c = 0; ...)
+		out = append(out, Define{Names: def.Names, Form: DefShort, Vals: []Expr{IntLit{7}}})
+		f.Init, f.Cond, f.Post = Assign{Names: def.Names, Vals: def.Vals}, cond, post
+	case "oppost":
+		// the post clause is a compound assignment (c += 1)
+		f.Init, f.Cond, f.Post = def, cond, OpAssign{Name: c, Op: "+", Val: IntLit{1}}
 	case "nopost":
 		f.Init, f.Cond, f.Three = def, cond, true
 	case "nocond":
@@ -1037,6 +1044,20 @@ func c01SimplePrograms() []*Prog {
 		{If{Cond: Var{"t"}, Then: []Stmt{defY(IntLit{1}), py}, Else: []Stmt{defY(StrLit{V: "e"}), py}, HasElse: true}, defY(BoolLit{true}), py},
 		{Switch{Tag: Var{"x"}, Cases: []Case{{Val: IntLit{5}, Body: []Stmt{defY(IntLit{1}), py}}, {Default: true, Body: []Stmt{defY(IntLit{2}), py}}}}, defY(IntLit{7}), py},
 		{For{Cond: Binary{Op: "<", L: Var{"v2"}, R: IntLit{5}}, Body: []Stmt{defY(Var{"v2"}), py, IncDec{Name: "v2", Inc: true}}}, defY(StrLit{V: "after"}), py},
+	}
+	// literal conditions in every position of a chain (a back-end may fold a constant branch away)
+	for _, c1 := range []Expr{BoolLit{false}, BoolLit{true}} {
+		for _, c2 := range []Expr{BoolLit{false}, BoolLit{true}, Binary{Op: ">", L: Var{"x"}, R: IntLit{3}}, Binary{Op: ">", L: Var{"x"}, R: IntLit{30}}} {
+			pz := func(tag string) []Stmt { return []Stmt{Print{Args: []Expr{StrLit{V: tag}, Var{"x"}}}} }
+			reuse = append(reuse,
+				[]Stmt{If{Cond: c1, Then: pz("then"), Elifs: []ElseIf{{Cond: c2, Body: pz("elif")}}, Else: pz("else"), HasElse: true}},
+				[]Stmt{If{Cond: c1, Then: pz("then"), Elifs: []ElseIf{{Cond: c2, Body: pz("elif")}}}},
+				[]Stmt{If{Cond: c2, Then: pz("then"), Elifs: []ElseIf{{Cond: c1, Body: pz("elif")}, {Cond: c2, Body: pz("elif2")}}, Else: pz("else"), HasElse: true}},
+				[]Stmt{If{Cond: c1, Then: pz("then"), Else: pz("else"), HasElse: true}, If{Cond: c2, Then: pz("then2")}},
+				[]Stmt{Switch{Tag: c1, Cases: []Case{{Val: BoolLit{true}, Body: pz("case-true")}, {Val: c2, Body: pz("case-c2")}, {Default: true, Body: pz("default")}}}},
+				[]Stmt{For{Cond: Binary{Op: "&&", L: c2, R: Binary{Op: "<", L: Var{"x"}, R: IntLit{250}}}, Body: append(pz("loop"), OpAssign{Name: "x", Op: "+", Val: IntLit{100}}, If{Cond: c1, Then: []Stmt{Break{}}})}, If{Cond: Binary{Op: ">", L: Var{"x"}, R: IntLit{250}}, Then: pz("stop")}},
+			)
+		}
 	}
 	for _, body := range reuse {
 		for _, w := range wrap {
